@@ -149,6 +149,27 @@ def run(db, tier):
                         guarded = True
     rep.check(guarded, "R-DEFERRED", "define_enum_const|redefinition->defer", dec.loc, "a redefinition of a name within an enum schedules an equality check",
               "define_enum_const no longer schedules an equality check when insert() returns the old definition")
+    # ambiguity is absorbing: once a name is known from another enum (Occupied entry of unique_enums) the only value written
+    # to the entry is None.  If an occupied entry can be overwritten with Some(enum), a third definition of an ambiguous name
+    # makes a bare use of it resolve silently to one of its different values instead of being reported.
+    occ = None
+    for m in hir_walk(dec.hir):
+        if m.get("k") == "Match" and m.get("src") == "Normal":
+            for a in m["arms"]:
+                q = a["p"]
+                while isinstance(q.get("p"), dict):
+                    q = q["p"]
+                if isinstance(q.get("p"), str) and q["p"].endswith("Entry::Occupied"):
+                    occ = a
+    if occ is None:
+        from common import Broken as _B
+        raise _B("R-DEFERRED: define_enum_const no longer distinguishes occupied / vacant entries of unique_enums")
+    ins = [x for x in hir_walk(occ["b"]) if x.get("k") == "MCall" and x.get("m") == "insert"]
+    none_arg = lambda x: bool(x.get("a")) and x["a"][0].get("k") == "Path" and (x["a"][0].get("p") or "").endswith("Option::None")
+    rep.check(bool(ins) and all(none_arg(x) for x in ins), "R-DEFERRED", "define_enum_const|ambiguity is absorbing", "%s:%d" % (dec.file, occ["ln"]),
+              "an entry that already exists is only ever overwritten with None (ambiguous)",
+              "a name already known from another enum (or already ambiguous) can have its unique_enums entry overwritten with something other than None "
+              "(line %s): after a further definition a bare use of the name silently picks one of its different values" % [x.get("ln") for x in ins if not none_arg(x)])
     dq = db.fn("context::consts::Consts::do_deferred_equality")
     rep.fn(dq)
     ne = [c for c in flow.comparisons(dq) if c["op"] in ("Ne", "Eq")]
